@@ -234,7 +234,8 @@ std_check("C17", [("close", 100, 1500), ("peer_send", 40, 500), ("peer_recv", 40
           # (NothingAfterFin only becomes applicable when data is transmitted after the endpoint's own FIN, which this
           #  implementation never does on its own: decided by MCClose, judged on traces whenever it applies, not required)
           ["C17.FinSeq", "C17.FinAfterData", "C17.PeerFinInOrder", "C17.FinAnswered",
-           "C17.ResetAborts", "C17.SynAckForm", "C17.SynAckRepeats", "C17.Transition", "C17.HandshakeGate"], model_spec=CLOSE_MODEL)
+           "C17.ResetAborts", "C17.SynAckForm", "C17.SynAckRepeats", "C17.Transition", "C17.HandshakeGate", "C17.FinTimerArmed"],
+          model_spec=CLOSE_MODEL)
 std_check("C18", [("peer_send", 120, 2000), ("xfer", 30, 300), ("close", 48, 600)],
           ["C18.NagleHold", "C18.NoHoldWhenOff", "C18.NagleDrain"],
           # "... or sent when the pipe drains": a held tail may not be forgotten when the application closes
